@@ -19,7 +19,7 @@ def run(v, tier, rng):
                 g = [("global", list(sub))] if sub else []
                 head = [("config", "FORMAT", ("str", b"WCOFF")), ("config", "BITS", ("num", 32)), ("config", "FILE", ("str", b"t.nas"))]
                 prog = head + (g + body if before else body + g)
-                cs.append({"prog": prog, "flat": prog[1:], "globals": list(sub), "labels": labs, "file": b"t.nas", "dup": False, "longfile": False})
+                cs.append({"prog": prog, "flat": prog[1:], "globals": list(sub), "labels": labs, "file": b"t.nas", "dup": False, "longfile": False, "addr": label_offsets(body)})
     cases = []
     for i, c in enumerate(cs):
         cases.append({"id": "o%d" % i, "srcs": [A.p_program(c["prog"])]})
@@ -40,7 +40,10 @@ def run(v, tier, rng):
         ents = []
         for k, nme in enumerate(seen):
             if nme in c["labels"]:
-                ents.append((0, symv.get(nme, -1) % (1 << 32), k, nme, 1))
+                # the value a GLOBAL label must carry is its real offset in .text, computed from the statement sizes
+                # (not what gosk's own symbol table says); for bodies the size rule does not cover, gosk's table
+                real = (c.get("addr") or {}).get(nme)
+                ents.append((0, (real if real is not None else symv.get(nme, -1)) % (1 << 32), k, nme, 1))
             else:
                 ents.append((1, 0, k, nme, 0))
         ents.sort(key=lambda e: (e[0], e[1] if e[0] == 0 else 0))   # stable: undefined last, defined by address
